@@ -113,6 +113,15 @@ func (h *harness) checkProj(vc *vcase, feat map[string]bool) {
 	}
 	o := bad(vc)
 	if o == "" {
+		// T2: the model's loader + projection over the real columns gives the same rows
+		if resp, crashed, _ := h.call(vc, []string{"dump"}, ""); !crashed && resp.DumpErr == "" && resp.Dump != "" {
+			c.Res.ModelCases++
+			if mv := c.Model().Call("(C03 vec " + pathsSexp(vc.Paths) + " " + resp.Dump + ")"); mv != want {
+				c.Fail("correspondence", "C03:corr:projvec", fmt.Sprintf("model projection of the loaded vectors differs from the specification `restrict` (and the real projection): paths %s model=%s want=%s", pathsText(vc.Paths), trunc(mv, 300), trunc(want, 300)), vc.replay("proj"))
+			} else {
+				c.Stat("projm:agrees")
+			}
+		}
 		return
 	}
 	if o2 := bad(vc); o2 == "" {
@@ -120,6 +129,19 @@ func (h *harness) checkProj(vc *vcase, feat map[string]bool) {
 		return
 	}
 	cls := outcomeClass(o)
+	if h.seenClass == nil {
+		h.seenClass = map[string]bool{}
+	}
+	if cls == "panic" || cls == "crash" {
+		if resp, crashed, _ := h.call(vc, []string{"dump"}, ""); !crashed && resp.Dump != "" &&
+			c.Model().Call("(C03 projcrash "+pathsSexp(vc.Paths)+" "+resp.Dump+")") == "1" {
+			if h.seenClass["proj:nested-record-partial-load"] {
+				c.Stat("proj:repeat-of-reported-class:nested-record-partial-load")
+				return
+			}
+			h.seenClass["proj:nested-record-partial-load"] = true
+		}
+	}
 	min := shrinkCase(vc, func(x *vcase) bool {
 		oc := outcomeClass(bad(x))
 		if cls == "crash" || cls == "panic" {
@@ -135,7 +157,17 @@ func (h *harness) checkProj(vc *vcase, feat map[string]bool) {
 	if oc := outcomeClass(o2); oc == "crash" || oc == "panic" {
 		kind = "panic"
 	}
-	c.Fail(kind, "C03:projection:"+vecClass(min, o2),
+	class := vecClass(min, o2)
+	if kind == "panic" && class == "other-panic" {
+		// the model's account of the nil-vector panic: a record below an array / set / map /
+		// union loaded only at the projected fields
+		if resp, crashed, _ := h.call(min, []string{"dump"}, ""); !crashed && resp.Dump != "" {
+			if c.Model().Call("(C03 projcrash "+pathsSexp(min.Paths)+" "+resp.Dump+")") == "1" {
+				class = "nested-record-partial-load"
+			}
+		}
+	}
+	c.Fail(kind, "C03:projection:"+class,
 		fmt.Sprintf("projection %s of %d value(s) of type(s) %s: %s", pathsText(min.Paths), len(min.Seq), trunc(typesOf(min), 200), trunc(o2, 400)),
 		min.replay("proj"))
 }
